@@ -28,7 +28,7 @@ AllJumps == {"return", "break", "continue"}
 
 ACtl == [simple |-> {Eff, IncA, Y(Lit0), Y(VarA)},
          inits |-> {None, Y(Lit0)}, posts |-> {None, PAssign, Y(Lit0)}, conds |-> {None, T0},
-         ifinits |-> {None}, kinds |-> {"if", "ifelse", "switch", "block", "for"}, jumps |-> AllJumps, ranges |-> {}]
+         ifinits |-> {None}, kinds |-> {"if", "ifelse", "switch", "block", "for"}, jumps |-> AllJumps \cup {"retx"}, ranges |-> {}]
 AScope == [simple |-> {Eff, DefA, IncA, [k |-> "callf"], Y(VarA)},
            inits |-> {None, DefA}, posts |-> {None, IncA}, conds |-> {T0},
            ifinits |-> {None, DefA}, kinds |-> {"if", "ifelse", "switch", "block", "for"}, jumps |-> {"continue"}, ranges |-> {}]
@@ -43,6 +43,14 @@ APanic == [ACtl EXCEPT !.simple = @ \cup {[k |-> "panic"]}]
 \* effects everywhere, effectful yield expressions (C02: the interleaving is the observation)
 ObsA == [k |-> "obs", id |-> 0, n |-> "a"]
 AEff == [ACtl EXCEPT !.simple = {Eff, IncA, Y(ObsA), Y(VarA)}, !.posts = {None, PAssign, Y(ObsA)}, !.inits = {None, Y(ObsA)}]
+\* expression shapes of yielded values (evaluation time of the Bind argument: C02, C07, C18):
+\* literal / variable / effectful two-argument call, each plain, negated, parenthesised and as the
+\* argument of a one-argument call; in a small control alphabet
+Base == {Lit0, VarA, ObsA}
+Exprs == Base \cup {[k |-> wk, e |-> e] : wk \in {"neg", "paren", "w1"}, e \in Base}
+AExpr == [simple |-> {Eff, IncA} \cup {Y(e) : e \in Exprs},
+          inits |-> {None}, posts |-> {None, Y([k |-> "w1", e |-> Lit0]), Y([k |-> "neg", e |-> ObsA])}, conds |-> {T0},
+          ifinits |-> {None}, kinds |-> {"if", "block", "for"}, jumps |-> {"return", "retx", "break"}, ranges |-> {}]
 ACtlX == [ACtl EXCEPT !.kinds = @ \cup {"switchd", "tswitch", "notag"}]
 \* range loops inside generators (C04): every collection kind x variable forms x body shapes
 RangeHdr(kind, xf, kf, vf) == [k |-> "range", id |-> 0, kind |-> kind, xf |-> xf, kf |-> kf, vf |-> vf, wrap |-> "none", body |-> <<>>]
@@ -59,7 +67,7 @@ ARange == [simple |-> {Y(VarK), Y(VarV), Mut("sset", 2), Mut("sapp", 0), Mut("st
            inits |-> {None}, posts |-> {None}, conds |-> {T0}, ifinits |-> {None},
            kinds |-> {"range", "if"}, jumps |-> {"break", "continue"}, ranges |-> Ranges]
 ARangeX == [ARange EXCEPT !.simple = @ \cup {Mut("nset", 0), Mut("strset", 0), Mut("sset", 0), Mut("aset", 0)}]
-A == CASE Family = "range" -> ARange [] Family = "rangex" -> ARangeX [] Family = "ctl" -> ACtl [] Family = "scope" -> AScope [] Family = "yf" -> AYf [] Family = "yfl" -> AYfL [] Family = "panic" -> APanic [] Family = "ctlx" -> ACtlX [] Family = "eff" -> AEff
+A == CASE Family = "range" -> ARange [] Family = "rangex" -> ARangeX [] Family = "ctl" -> ACtl [] Family = "scope" -> AScope [] Family = "yf" -> AYf [] Family = "yfl" -> AYfL [] Family = "panic" -> APanic [] Family = "ctlx" -> ACtlX [] Family = "eff" -> AEff [] Family = "expr" -> AExpr
 
 \* Go scoping: `a := ...` at most once per block and never in the function's top block
 \* (a is a parameter there: "no new variables on left side of :=")
